@@ -32,6 +32,16 @@ impl Formatter for NextLineBreakRemover {
     fn format(&self, content: &str, byte_pos: usize) -> (usize, usize) {
         let bytes = content.as_bytes();
 
+        // A blank line may only be merged into the removal position when the position itself sits on
+        // a blank line: after an inline removal at the end of a line the line break still ends that line.
+        if !content.is_char_boundary(byte_pos) {
+            return (byte_pos, byte_pos);
+        }
+        let before = content[..byte_pos].trim_end_matches(|c| c == ' ' || c == '\t');
+        if !(before.is_empty() || before.ends_with('\n')) {
+            return (byte_pos, byte_pos);
+        }
+
         let line_break_pos = find_next_line_break_pos(content, bytes, byte_pos, true)
             .and_then(|pos| find_next_line_break_pos(content, bytes, pos + 1, true));
 
